@@ -286,13 +286,24 @@ func sortedAfter(info *types.Info, f *ScopeFunc, loop ast.Node, slice string) bo
 		if idx < 0 {
 			continue
 		}
+		// local aliases of the slice introduced after the loop (`entries := out.Children`): sorting
+		// the alias sorts the same backing array
+		names := map[string]bool{slice: true}
 		for j := idx + 1; j < len(list); j++ {
+			if as, ok := list[j].(*ast.AssignStmt); ok && len(as.Lhs) == 1 && len(as.Rhs) == 1 && names[core.ExprStr(as.Rhs[0])] {
+				if id, ok := as.Lhs[0].(*ast.Ident); ok {
+					names[id.Name] = true
+				}
+			}
 			found := false
 			ast.Inspect(list[j], func(n ast.Node) bool {
 				if c, ok := n.(*ast.CallExpr); ok {
 					name := core.CalleeName(info, c)
-					if (strings.HasPrefix(name, "sort.") || strings.HasPrefix(name, "slices.Sort")) && len(c.Args) > 0 && strings.Contains(core.ExprStr(c.Args[0]), slice) {
-						found = true
+					if (strings.HasPrefix(name, "sort.") || strings.HasPrefix(name, "slices.Sort")) && len(c.Args) > 0 {
+						arg := core.ExprStr(c.Args[0])
+						if strings.Contains(arg, slice) || names[arg] {
+							found = true
+						}
 					}
 				}
 				return !found
